@@ -141,6 +141,8 @@ const PREFIXES: [(char, usize); 5] = [('!', 0), ('!', 1), ('-', 1), ('!', 2), ('
 fn eval_i128(e: &E, env: &[(String, i64)]) -> Option<i128> {
     match e {
         E::Var(n) => env.iter().find(|(k, _)| k == n).map(|(_, v)| *v as i128),
+        E::Raw(t) => t.parse::<i64>().ok().map(|v| v as i128),
+        E::Paren(a) => eval_i128(a, env),
         E::Un('-', n, a) => {
             let v = eval_i128(a, env)?;
             Some(if n % 2 == 1 { -v } else { v })
@@ -298,7 +300,7 @@ pub fn run(ctx: &mut Ctx) {
         }
         // arithmetic-only trees: the value must be the i128 evaluation of the expected tree
         let ad = 1 + rng.below(5) as u32;
-        let at = random_arith(rng, ad);
+        let at = if rng.chance(1, 3) { arith_chain(rng) } else { random_arith(rng, ad) };
         let asrc = gen::render(&at, Ws::Pretty, Parens::Minimal, None).text;
         let env: Vec<(String, i64)> = ["a", "b", "c", "d", "e"].iter().map(|n| (n.to_string(), rng.range(-9, 9))).collect();
         let abinds: Vec<(String, CelValue)> = env.iter().map(|(k, v)| (k.clone(), (*v).into())).collect();
@@ -377,6 +379,17 @@ fn random_env(rng: &mut Rng) -> Vec<(String, CelValue)> {
 
 fn random_tree(rng: &mut Rng, depth: u32) -> E {
     if depth == 0 || rng.chance(1, 5) {
+        // literal operands as well: the compiler treats constant neighbours specially (folding, merging), and
+        // whatever it does must respect the grouping the grammar gives the text
+        if rng.chance(1, 3) {
+            // (E::Raw with the text the syntax tree normaliser produces for literals)
+            return E::Raw(match rng.below(6) {
+                0..=2 => format!("{}", rng.range(0, 9)),
+                3 => format!("{}u", rng.below(5)),
+                4 => format!("{:?}", rng.range(0, 8) as f64 / 2.0),
+                _ => format!("{}", rng.chance(1, 2)),
+            });
+        }
         let v = E::Var(rng.pick(&["a", "b", "c", "d", "e"]).to_string());
         return match rng.below(8) {
             0 => E::Index(Box::new(v), Box::new(E::Var("i".into()))),
@@ -399,8 +412,24 @@ fn random_tree(rng: &mut Rng, depth: u32) -> E {
     }
 }
 
+/// a flat run of 2-6 operators of one precedence level (left-deep by the grammar) over variables and literals
+fn arith_chain(rng: &mut Rng) -> E {
+    let additive = rng.chance(1, 2);
+    let n = 2 + rng.below(5);
+    let operand = |rng: &mut Rng| if rng.chance(1, 2) { E::Raw(format!("{}", rng.range(0, 9))) } else { E::Var(rng.pick(&["a", "b", "c", "d", "e"]).to_string()) };
+    let mut e = operand(rng);
+    for _ in 0..n {
+        let op = if additive { *rng.pick(&[BinOp::Add, BinOp::Sub]) } else { *rng.pick(&[BinOp::Mul, BinOp::Div, BinOp::Mod]) };
+        e = E::Bin(op, Box::new(e), Box::new(operand(rng)));
+    }
+    e
+}
+
 fn random_arith(rng: &mut Rng, depth: u32) -> E {
     if depth == 0 || rng.chance(1, 5) {
+        if rng.chance(2, 5) {
+            return E::Raw(format!("{}", rng.range(0, 9)));
+        }
         return E::Var(rng.pick(&["a", "b", "c", "d", "e"]).to_string());
     }
     if rng.chance(1, 8) {
